@@ -4,7 +4,7 @@
 #   demo passes on the unchanged tree, fails with the change; the whole existing suite passes with the change.
 # Stores patch.diff, demo.py, meta.json (+ confirmation) under /verif/seeded/<id>/<name>/ when confirmed.
 set -u
-ID=$1; NAME=$2; DEF=/tmp/mutwork/$ID/$NAME; case $NAME in n*) DEF=/tmp/mutwork2/$ID/$NAME;; esac; SRC=${3:-$DEF}
+ID=$1; NAME=$2; DEF=/tmp/mutwork/$ID/$NAME; case $NAME in n*) DEF=/tmp/mutwork2/$ID/$NAME;; p*) DEF=/tmp/mutwork3/$ID/$NAME;; esac; SRC=${3:-$DEF}
 WT=/tmp/confirm/$ID-$NAME; WORK=/tmp/confirm/work-$ID-$NAME
 rm -rf "$WORK"; mkdir -p /tmp/confirm "$WORK"
 git -C /repo worktree remove --force "$WT" >/dev/null 2>&1
@@ -12,7 +12,7 @@ git -C /repo worktree add --detach "$WT" HEAD >/dev/null 2>&1 || { echo "cannot 
 cleanup() { git -C /repo worktree remove --force "$WT" >/dev/null 2>&1; rm -rf "$WORK"; }
 trap cleanup EXIT
 run_demo() { ( cd "$WORK" && rm -rf ./* && PYTHONPATH="$WT/src" timeout 900 /venv/bin/python "$SRC/demo.py" > "$WORK/../demo-$ID-$NAME-$1.txt" 2>&1; echo $? ); }
-sed -e "s#/tmp/mut/${ID}r2#$WT#g" -e "s#/tmp/mut/$ID#$WT#g" "$SRC/demo.py" > "$WORK/../demo-$ID-$NAME.py"
+sed -e "s#/tmp/mut/${ID}r3#$WT#g" -e "s#/tmp/mut/${ID}r2#$WT#g" -e "s#/tmp/mut/$ID#$WT#g" "$SRC/demo.py" > "$WORK/../demo-$ID-$NAME.py"
 U=$(cd "$WORK" && PYTHONPATH="$WT/src" timeout 900 /venv/bin/python "$WORK/../demo-$ID-$NAME.py" > /tmp/confirm/out-$ID-$NAME-unchanged.txt 2>&1; echo $?)
 if ! git -C "$WT" apply "$SRC/patch.diff"; then echo "[$ID/$NAME] patch does not apply to current HEAD"; exit 3; fi
 C=$(cd "$WORK" && rm -rf ./* && PYTHONPATH="$WT/src" timeout 900 /venv/bin/python "$WORK/../demo-$ID-$NAME.py" > /tmp/confirm/out-$ID-$NAME-changed.txt 2>&1; echo $?)
